@@ -102,6 +102,44 @@ def check(ctx):
                    "no serialisation after the open in helper" if q2 is None else
                    "serialisation after the open in %s" % f.qualname, node=on)
 
+    # C19.2b nothing else damages the destination while serialisation has not succeeded: a remove / rename / overwrite of
+    # the destination path that can run without dumps having completed normally (in a failure handler, or before dumps) is
+    # only sound when it is known that the destination did not exist -- a test on the very path value it acts on
+    from engine.flow import guard_atoms
+    DESTRUCTIVE = {"remove": (0,), "unlink": (0,), "rmdir": (0,), "rmtree": (0,), "truncate": (0,), "rename": (0, 1), "replace": (0, 1),
+                   "move": (0, 1), "copy": (1,), "copyfile": (1,), "copy2": (1,), "renames": (0, 1)}
+    EXISTS = ("exists", "isfile", "lexists", "is_file")
+    nd = 0
+    for n in g.nodes:
+        if n.kind != "call" or not isinstance(n.ast, ast.Call):
+            continue
+        f_ = n.ast.func
+        name = f_.attr if isinstance(f_, ast.Attribute) else (f_.id if isinstance(f_, ast.Name) else None)
+        if name not in DESTRUCTIVE:
+            continue
+        if isinstance(f_, ast.Attribute) and not n.ast.args and name in ("unlink", "rmdir", "truncate", "rename", "replace"):
+            hit = [f_.value] if mentions_params(save, f_.value, n, {fparam}) else []        # Path(dest).unlink()
+        else:
+            hit = [n.ast.args[i] for i in DESTRUCTIVE[name] if i < len(n.ast.args) and mentions_params(save, n.ast.args[i], n, {fparam})]
+        if not hit:
+            continue
+        nd += 1
+        if must_complete(an, save, n, lambda x: x in dset) is None:
+            continue            # after a successful serialisation: the atomic-replace idiom
+        texts = {ast.unparse(h) for h in hit}
+        known_absent = False
+        for e, truth, _t in guard_atoms(an, save, n):
+            if truth is False and isinstance(e, ast.Call) and isinstance(e.func, ast.Attribute) and e.func.attr in EXISTS:
+                subject = e.args[0] if e.args else e.func.value
+                if ast.unparse(subject) in texts:
+                    known_absent = True
+        ctx.ob("dest.untouched-on-failure", save, n.ast, known_absent,
+               "runs only when the destination (the same path value) did not exist before" if known_absent else
+               "%s(...) can act on the destination although serialisation has not completed, without a test that this very path did "
+               "not exist: a failed save can remove or replace a previously saved configuration" % name, node=n)
+    if nd == 0:
+        ctx.ob("dest.untouched-on-failure", save, "no remove/rename of the destination", True, "save never removes or renames its destination", nontrivial=False)
+
     # C19.3 the write
     writers = []
     for f in an.reachable_fns([save]):
@@ -177,6 +215,12 @@ def check(ctx):
         ctx.ob("flow.filename-not-serialised", save, call, not bad,
                "the destination path is not an argument of dumps" if not bad else
                "the destination path flows into dumps", node=n)
+    # "an unusable key file" makes serialisation fail -- on every save, not only the first: shared with C07 (a malformed key
+    # that stays in the slot after the failure lets the next save succeed with it and overwrite the previous configuration)
+    from . import c07
+    sub = type(ctx)(ctx.pid, ctx.an, ctx.tier)
+    c07.check(sub)
+    ctx.obligations.extend(o for o in sub.obligations if o.rule.split(".", 1)[1].startswith(("typestate.no-unvalidated-retained", "reject.")))
     from .paths import check_save_load_path
     check_save_load_path(ctx)
     from .xmlfmt import check_xml_output_validated
